@@ -528,9 +528,9 @@ class Ctx:
             guard += 1
             if skip >= len(starts):
                 break
-            if guard >= 30:
+            if guard >= 12:
                 # enough faults recorded from this chunk; the rest of it is not executed
-                self.extra["executions_skipped_after_30_faults"] = self.extra.get("executions_skipped_after_30_faults", 0) + (len(starts) - skip)
+                self.extra["executions_skipped_after_12_faults"] = self.extra.get("executions_skipped_after_12_faults", 0) + (len(starts) - skip)
                 break
         os.remove(script)
         return trace, guard
@@ -598,7 +598,8 @@ class Ctx:
             shutil.rmtree(meta, ignore_errors=True)
             o = o.decode("utf8", "replace")
             if p.returncode != 0 or not os.path.exists(vf):
-                raise InfraError("trace judge %s failed rc=%s\n%s" % (module, p.returncode, o[-5000:]))
+                i = o.find("Error:")
+                raise InfraError("trace judge %s failed rc=%s (trace kept: %s)\n%s\n...\n%s" % (module, p.returncode, tf, o[max(0, i - 200):i + 2500], o[-1500:]))
             v = json.load(open(vf))
             flat = [l for ex in b for l in ex]
             if v["consumed"] != v["total"] or v["total"] != len(flat):
